@@ -80,11 +80,12 @@ type pendingOp struct {
 
 func field(v tla.Value, f string) tla.Value { return v.ApplyFunction(tla.MakeString(f)) }
 
-// duplicatedPut: some server's log holds two entries with the same (client, idx) for a Put —
-// the shape of the listed finding (a client retry was appended twice).
-func duplicatedPut(r *sysbind.Raft) bool {
+// duplicatePuts lists, for every Put that some server's log holds more than once (same client and request
+// number: a client retry that was appended again), the number of extra copies — the shape of the listed finding.
+func duplicatePuts(r *sysbind.Raft) map[string]int {
+	extra := map[string]int{}
 	for s := range r.Shadow {
-		seen := map[string]bool{}
+		seen := map[string]int{}
 		it := r.Shadow[s]["log"].AsTuple().Iterator()
 		for !it.Done() {
 			_, e := it.Next()
@@ -92,78 +93,155 @@ func duplicatedPut(r *sysbind.Raft) bool {
 			if field(cmd, "type").AsString() != "put" {
 				continue
 			}
-			k := fmt.Sprintf("%v/%v", field(e, "client"), field(cmd, "idx"))
-			if seen[k] {
-				return true
+			k := fmt.Sprintf("%v|%v|%v", field(e, "client").AsNumber(), field(cmd, "key").AsString(), field(cmd, "value").AsString())
+			seen[k]++
+		}
+		for k, c := range seen {
+			if c-1 > extra[k] {
+				extra[k] = c - 1
 			}
-			seen[k] = true
 		}
 	}
-	return false
+	for k, c := range extra {
+		if c == 0 {
+			delete(extra, k)
+		}
+	}
+	return extra
+}
+
+// histRec builds the clients' invoke/return history from the committed steps of the AClient archetypes.
+type histRec struct {
+	open           map[int]*pendingOp // per client
+	ops            []porcupine.Operation
+	hist           strings.Builder
+	retries        int
+	leaderChanges  int
+	lastLeaderTerm int
+	sends          map[int]int
+}
+
+func newHistRec() *histRec { return &histRec{open: map[int]*pendingOp{}, sends: map[int]int{}} }
+
+func (h *histRec) onCommit(node, stepNo int, st sched.Step, termOf func(node int) int) string {
+	switch st.PC {
+	case "AClient.clientLoop":
+		for _, el := range st.Event.Elements {
+			if rd, ok := el.(trace.ReadElement); ok && rd.Name == "reqCh" {
+				req := rd.Value
+				op := &pendingOp{call: int64(stepNo), in: kvIn{put: field(req, "type").AsString() == "put", key: field(req, "key").AsString()}}
+				if op.in.put {
+					op.in.value = field(req, "value").AsString()
+				}
+				h.open[node] = op
+				h.sends[node] = 0
+				fmt.Fprintf(&h.hist, "%d: client %d invokes %s\n", stepNo, node, kvModel.DescribeOperation(op.in, kvOut{}))
+			}
+		}
+	case "AClient.sndReq":
+		h.sends[node]++
+		if h.sends[node] > 1 {
+			h.retries++
+			fmt.Fprintf(&h.hist, "%d: client %d re-sends its request\n", stepNo, node)
+		}
+	case "AClient.rcvResp":
+		for _, el := range st.Event.Elements {
+			if w, ok := el.(trace.WriteElement); ok && w.Name == "respCh" {
+				op := h.open[node]
+				if op == nil {
+					return fmt.Sprintf("client %d published a response without an open request", node)
+				}
+				resp := field(w.Value, "mresponse")
+				out := kvOut{ok: field(resp, "ok").AsBool()}
+				if out.ok {
+					out.value = field(resp, "value").AsString()
+				}
+				if got := field(resp, "key").AsString(); got != op.in.key {
+					return fmt.Sprintf("client %d asked about key %s and was answered about key %s", node, op.in.key, got)
+				}
+				h.ops = append(h.ops, porcupine.Operation{ClientId: node, Input: op.in, Call: op.call, Output: out, Return: int64(stepNo)})
+				fmt.Fprintf(&h.hist, "%d: client %d returns %s\n", stepNo, node, kvModel.DescribeOperation(op.in, out))
+				delete(h.open, node)
+			}
+		}
+	case "AServerBecomeLeader.serverBecomeLeaderLoop":
+		term := termOf(node)
+		if h.lastLeaderTerm != 0 && term != h.lastLeaderTerm && len(h.open) > 0 {
+			h.leaderChanges++
+		}
+		h.lastLeaderTerm = term
+		fmt.Fprintf(&h.hist, "%d: server %d becomes leader of term %d\n", stepNo, node, term)
+	}
+	return ""
+}
+
+// judge checks the history with porcupine; view gives the servers' logs for the listed-finding shape.
+func (h *histRec) judge(t *rapid.T, steps int, view *sysbind.Raft, what string, crashes []int) {
+	// operations still open at the end may or may not have taken effect
+	end := int64(steps + 1)
+	ops := h.ops
+	for node, op := range h.open {
+		if op.in.put {
+			ops = append(ops, porcupine.Operation{ClientId: node, Input: op.in, Call: op.call, Output: kvOut{}, Return: end})
+		}
+	}
+	res, _ := porcupine.CheckOperationsVerbose(kvModel, ops, 20*time.Second)
+	vstat.ClassN(what+"operations", int64(len(ops)))
+	vstat.ClassN(what+"client-retries", int64(h.retries))
+	if res == porcupine.Unknown {
+		vstat.Class("porcupine.timeout")
+		return
+	}
+	if res != porcupine.Ok {
+		// The listed finding: a re-sent Put is appended (and applied) once per copy. It is set aside only if the history
+		// becomes linearizable once every extra copy found in a log is counted as a further Put of the same value that
+		// may take effect at any time after the original invocation; anything else is still reported.
+		if dups := duplicatePuts(view); len(dups) > 0 {
+			relaxed := append([]porcupine.Operation{}, ops...)
+			for _, o := range ops {
+				in := o.Input.(kvIn)
+				if !in.put {
+					continue
+				}
+				for i := 0; i < dups[fmt.Sprintf("%d|%s|%s", o.ClientId, in.key, in.value)]; i++ {
+					relaxed = append(relaxed, porcupine.Operation{ClientId: 1000 + len(relaxed), Input: in, Call: o.Call, Output: kvOut{}, Return: end})
+				}
+			}
+			r2, _ := porcupine.CheckOperationsVerbose(kvModel, relaxed, 20*time.Second)
+			if r2 == porcupine.Unknown {
+				vstat.Class("porcupine.timeout")
+				return
+			}
+			if r2 == porcupine.Ok && vstat.Known("raft-duplicate-put-applied-twice") {
+				return
+			}
+		}
+		t.Fatalf("the acknowledged client history is not linearizable (%sservers=%d clients=%d crashes=%v)\n%s", what, view.O.NumServers, view.O.NumClients, crashes, h.hist.String())
+	}
+	// overlapping operations of two clients on one key, and a retry or leader change inside an operation's interval
+	overlap := false
+	for i := range ops {
+		for j := range ops {
+			if i < j && ops[i].ClientId != ops[j].ClientId && ops[i].Input.(kvIn).key == ops[j].Input.(kvIn).key &&
+				ops[i].Call < ops[j].Return && ops[j].Call < ops[i].Return {
+				overlap = true
+			}
+		}
+	}
+	if overlap && (h.retries > 0 || h.leaderChanges > 0) {
+		hs := what + h.hist.String()
+		vstat.NonTrivial(hs, func() string { return hs })
+	}
 }
 
 func TestC09Linearizable(t *testing.T) {
 	rapid.Check(t, func(t *rapid.T) {
 		vstat.Case()
-		open := map[int]*pendingOp{} // per client
-		var ops []porcupine.Operation
-		var hist strings.Builder
-		retries, leaderChanges := 0, 0
-		lastLeaderTerm := 0
-		sends := map[int]int{}
+		h := newHistRec()
 		run, msg := sysbind.DriveRaft(t, sysbind.RaftDriveOpts{
 			MinClients: 2, MaxClients: 3, MaxSteps: 4000,
 			OnCommit: func(run *sysbind.RaftRun, in *sched.Instance, st sched.Step) string {
-				node := run.R.NodeOf(in)
-				switch st.PC {
-				case "AClient.clientLoop":
-					for _, el := range st.Event.Elements {
-						if rd, ok := el.(trace.ReadElement); ok && rd.Name == "reqCh" {
-							req := rd.Value
-							op := &pendingOp{call: int64(run.StepNo), in: kvIn{put: field(req, "type").AsString() == "put", key: field(req, "key").AsString()}}
-							if op.in.put {
-								op.in.value = field(req, "value").AsString()
-							}
-							open[node] = op
-							sends[node] = 0
-							fmt.Fprintf(&hist, "%d: client %d invokes %s\n", run.StepNo, node, kvModel.DescribeOperation(op.in, kvOut{}))
-						}
-					}
-				case "AClient.sndReq":
-					sends[node]++
-					if sends[node] > 1 {
-						retries++
-						fmt.Fprintf(&hist, "%d: client %d re-sends its request\n", run.StepNo, node)
-					}
-				case "AClient.rcvResp":
-					for _, el := range st.Event.Elements {
-						if w, ok := el.(trace.WriteElement); ok && w.Name == "respCh" {
-							op := open[node]
-							if op == nil {
-								return fmt.Sprintf("client %d published a response without an open request", node)
-							}
-							resp := field(w.Value, "mresponse")
-							out := kvOut{ok: field(resp, "ok").AsBool()}
-							if out.ok {
-								out.value = field(resp, "value").AsString()
-							}
-							if got := field(resp, "key").AsString(); got != op.in.key {
-								return fmt.Sprintf("client %d asked about key %s and was answered about key %s", node, op.in.key, got)
-							}
-							ops = append(ops, porcupine.Operation{ClientId: node, Input: op.in, Call: op.call, Output: out, Return: int64(run.StepNo)})
-							fmt.Fprintf(&hist, "%d: client %d returns %s\n", run.StepNo, node, kvModel.DescribeOperation(op.in, out))
-							delete(open, node)
-						}
-					}
-				case "AServerBecomeLeader.serverBecomeLeaderLoop":
-					term := int(run.R.Shadow[node-1]["currentTerm"].AsNumber())
-					if lastLeaderTerm != 0 && term != lastLeaderTerm && len(open) > 0 {
-						leaderChanges++
-					}
-					lastLeaderTerm = term
-					fmt.Fprintf(&hist, "%d: server %d becomes leader of term %d\n", run.StepNo, node, term)
-				}
-				return ""
+				return h.onCommit(run.R.NodeOf(in), run.StepNo, st, func(node int) int { return int(run.R.Shadow[node-1]["currentTerm"].AsNumber()) })
 			},
 			Done: func(run *sysbind.RaftRun) bool {
 				for _, c := range run.R.Clients {
@@ -171,45 +249,12 @@ func TestC09Linearizable(t *testing.T) {
 						return false
 					}
 				}
-				return len(open) == 0
+				return len(h.open) == 0
 			},
 		})
 		if msg != "" {
-			t.Fatalf("%s\n%s", msg, hist.String())
+			t.Fatalf("%s\n%s", msg, h.hist.String())
 		}
-		// operations still open at the end may or may not have taken effect
-		end := int64(run.Steps + 1)
-		for node, op := range open {
-			if op.in.put {
-				ops = append(ops, porcupine.Operation{ClientId: node, Input: op.in, Call: op.call, Output: kvOut{}, Return: end})
-			}
-		}
-		res, _ := porcupine.CheckOperationsVerbose(kvModel, ops, 20*time.Second)
-		vstat.ClassN("operations", int64(len(ops)))
-		vstat.ClassN("client-retries", int64(retries))
-		if res == porcupine.Unknown {
-			vstat.Class("porcupine.timeout")
-			return
-		}
-		if res != porcupine.Ok {
-			if duplicatedPut(run.R) && vstat.Known("raft-duplicate-put-applied-twice") {
-				return
-			}
-			t.Fatalf("the acknowledged client history is not linearizable (servers=%d clients=%d crashes=%v)\n%s", run.R.O.NumServers, run.R.O.NumClients, run.Crashes, hist.String())
-		}
-		// overlapping operations of two clients on one key, and a retry or leader change inside an operation's interval
-		overlap := false
-		for i := range ops {
-			for j := range ops {
-				if i < j && ops[i].ClientId != ops[j].ClientId && ops[i].Input.(kvIn).key == ops[j].Input.(kvIn).key &&
-					ops[i].Call < ops[j].Return && ops[j].Call < ops[i].Return {
-					overlap = true
-				}
-			}
-		}
-		if overlap && (retries > 0 || leaderChanges > 0) {
-			h := hist.String()
-			vstat.NonTrivial(h, func() string { return h })
-		}
+		h.judge(t, run.Steps, run.R, "", run.Crashes)
 	})
 }
